@@ -17,7 +17,10 @@ ChildOf(d, j, i) == IsElem(d, j) /\ IsOpen(d, i) /\ i < j /\ j < MatchEnd(d, i) 
 Named(d, n) == {i \in 1..Len(d) : IsElem(d, i) /\ d[i].n = n}
 
 WellFormed(d) ==
-  /\ \A i \in 1..Len(d) : d[i].k \in {"text", "textlt", "stag", "etag", "sc"}
+  /\ \A i \in 1..Len(d) : d[i].k \in {"text", "textlt", "stag", "etag", "sc", "copen", "cclose"}
+  \* comments are closed and hold plain text only (no markup: that is the premise of C03's known deviation D1)
+  /\ \A i \in 1..Len(d) : d[i].k = "copen" => (i + 2 <= Len(d) /\ d[i + 1].k = "text" /\ d[i + 2].k = "cclose")
+  /\ \A i \in 1..Len(d) : d[i].k = "cclose" => (i > 2 /\ d[i - 2].k = "copen")
   /\ \A j \in 1..(Len(d) + 1) : Depth(d, j) >= 0
   /\ Depth(d, Len(d) + 1) = 0
   /\ \A i \in 1..Len(d) : IsOpen(d, i) => d[MatchEnd(d, i)].n = d[i].n
